@@ -698,16 +698,31 @@ func doRegs(run *vh.Run, class string, prefix string, env map[string]string, es 
 	t, err, panicked, pv := newTable(text)
 	id := run.NextID()
 	sample := map[string]interface{}{"prefix": prefix, "env": env, "entries": es, "text": text}
-	if !f.ok {
-		// outside Model/WtF64.v (Inf, NaN, subnormal): judged here, without the model
-		if panicked {
-			run.Violation(id, fmt.Sprintf("route.NewTable panicked on the commands generated from a registration whose weight option is outside the normal binary64 range (%v)", pv), sample)
-		}
-		run.Exclude("weight literal outside the modelled binary64 domain (Inf/NaN/subnormal): " + map[bool]string{true: "NewTable panicked", false: "no panic"}[panicked])
-		return
-	}
 	if panicked {
+		// since /repo 290c777 no weight literal crashes the table build: a panic on ANY generated
+		// registration is a violation, inside or outside the float model
 		run.Violation(id, fmt.Sprintf("route.NewTable panicked on generated route commands: %v", pv), sample)
+	}
+	if !f.ok {
+		// weight literal outside Model/WtF64.v (Inf, NaN, subnormal): no Coq case; judged here without
+		// the model: no panic (above), and every command that parses to one definition carries
+		// exactly the value strconv.ParseFloat gives the registered literal
+		for _, c := range all {
+			fs := strings.Fields(c)
+			for i := 5; i+1 < len(fs); i++ {
+				if fs[i] != "weight" {
+					continue
+				}
+				want, perr := strconv.ParseFloat(fs[i+1], 64)
+				defs, derr, _ := parseOne(c)
+				if perr == nil && derr == nil && len(defs) == 1 && math.Float64bits(defs[0].Weight) != math.Float64bits(want) && !(math.IsNaN(want) && math.IsNaN(defs[0].Weight)) {
+					run.Violation(id, fmt.Sprintf("parsed weight %v differs from the registered literal %q", defs[0].Weight, fs[i+1]), sample)
+				}
+				break
+			}
+		}
+		run.Exclude("weight literal outside the modelled binary64 domain (Inf/NaN/subnormal): run through the real NewTable, no panic required")
+		return
 	}
 	var tbl string
 	switch {
